@@ -1,8 +1,8 @@
 #!/usr/bin/env python3
 """Prepare a round of sub-agent work: scratch worktrees of /repo and one prompt file per property.
 
-usage: mk_prompts.py seed    <base dir> <flavour: unusual|coordinated|disguised|feature|subtle|modern|mixed> [Cxx ...]
-       mk_prompts.py neutral <base dir> <flavour: small|medium|large|modern> [Cxx ...]
+usage: mk_prompts.py seed    <base dir> <flavour: unusual|coordinated|disguised|feature|subtle|modern|perf|mixed> [Cxx ...]
+       mk_prompts.py neutral <base dir> <flavour: small|medium|large|modern|perf> [Cxx ...]
 
 Each sub-agent gets ONLY the text of one property (from properties.jsonl) and its own scratch git worktree
 <base>/<Cxx> of /repo; nothing from /verif. Its deliverables land in <base>/<Cxx>/_out/ and are ingested with
@@ -54,6 +54,8 @@ FLAVOURS["subtle"] = '''Flavour for this property: SMALL and SEMANTICALLY SUBTLE
 
 FLAVOURS["modern"] = '''Flavour for this property: a MODERNISING refactoring with ONE wrong detail. Each change rewrites a piece of the anchored code (or of code it depends on) the way a maintainer tidying it up would - a local closure replacing repeated statements; a table or map of constants / constructors replacing a switch; a loop over a small table replacing written-out statements; a generic helper; named results with a single exit; binary.BigEndian.AppendUint16/32 or explicit appends replacing PutUint16 into a pre-sized buffer (or the other way round); a struct literal replacing field-by-field assignment; guard clauses replacing nested ifs; a helper method extracted - and is behaviour-preserving EXCEPT for exactly one detail that breaks the property: one table entry, one captured variable updated at the wrong moment, one constant, one offset, one dropped or swapped statement, one condition inverted for one case, an early return that skips something. 20-60 changed lines of which one or two matter.'''
 
+FLAVOURS["perf"] = '''Flavour for this property: a PERFORMANCE or ALLOCATION optimisation with ONE wrong detail. Each change rewrites a piece of the anchored code (or of code it depends on) the way a maintainer chasing allocations and copies would - a two-pass encoder that first adds up the size and then fills one pre-sized buffer at a running offset; a decoder that walks the input with an integer offset instead of re-slicing; a scratch buffer, hash object or cipher object kept and reused across iterations or calls; append onto a caller-supplied or shared slice instead of a fresh one; a sub-slice of the input kept instead of a copy; copy() with computed bounds; a map replaced by a small sorted slice or an array indexed by type; a length computed once and cached; an early exit for the common case; loop fusion - and is behaviour-preserving EXCEPT for exactly one detail that breaks the property: a size or offset that is off in one case, a reused buffer that still holds old octets, an alias that should have been a copy, a cached value that goes stale, the early exit taken in one case too many. 15-60 changed lines of which one or two matter.'''
+
 NEUTRAL_SMALL = '''You are helping to evaluate a verification effort by playing the role of a careful maintainer who REFACTORS code without changing behaviour. ''' + HEAD + '''
 Your task: produce FOUR independent, realistic, BEHAVIOUR-PRESERVING changes (call them a, b, c, d) to the library's non-test source inside the code this property is anchored in. Each change on its own must
   1. leave the property above TRUE for every input / configuration / history in its quantifier (be strict about this: no change of any observable result, error/no-error outcome, or state for in-domain inputs; and no new crash on out-of-domain input either),
@@ -85,6 +87,12 @@ NEUTRAL_MODERN = NEUTRAL_SMALL.replace(
     "of moderate size (5-40 changed lines), and the four changes must be of DIFFERENT kinds, chosen from e.g.:",
     "of medium size (15-60 changed lines), each in a DIFFERENT function or file of the anchored code (at least one of them in code the anchors reach only indirectly: a callee, a constructor, an accessor, an init function, a registry), written the way a maintainer MODERNISING or HARDENING the code would: e.g. named result parameters with a single exit; a small closure or local helper function replacing repeated statements; a generic helper (Go 1.21) for repeated slice / map handling; bytes.Buffer / binary.Write replaced by explicit appends (or the other way round); errors wrapped differently but with the same nil / non-nil outcome; defer used for a cleanup that was written out on each path; a struct literal instead of field-by-field assignment (or vice versa); a table or map of constants replacing a switch (or vice versa); guard clauses instead of nested ifs; an extra defensive check that can never fire for valid inputs and returns an error otherwise; loop fusion or fission; an explicit length or capacity pre-computation. Besides these you may still use:")
 
+NEUTRAL_PERF = NEUTRAL_SMALL.replace(
+    "Your task: produce FOUR independent, realistic, BEHAVIOUR-PRESERVING changes (call them a, b, c, d)",
+    "Your task: produce THREE independent, realistic, BEHAVIOUR-PRESERVING changes (call them q, r, s)").replace(
+    "of moderate size (5-40 changed lines), and the four changes must be of DIFFERENT kinds, chosen from e.g.:",
+    "of medium size (15-60 changed lines), each in a DIFFERENT function or file of the anchored code, written the way a maintainer REDUCING ALLOCATIONS AND COPIES would, e.g.: a two-pass encoder that first adds up the size and then fills one pre-sized buffer at a running offset (or appends onto one buffer with the right capacity); a decoder that walks the input with an integer offset instead of re-slicing it (or the other way round); explicit index arithmetic instead of temporary sub-slices; a local scratch array instead of a heap slice; a length or key computed once and reused; copy() with computed bounds instead of append; a small array or sorted slice instead of a map where the key space is tiny; loop fusion; an early exit for the common case that returns exactly what the general path would; strings.Builder / strconv instead of fmt for a String method. Ownership must stay as it is: whatever the original copied must still be copied, whatever was fresh must still be fresh, nothing new may be shared between calls. Besides these you may still use:")
+
 NEUTRAL_LARGE = NEUTRAL_SMALL.replace(
     "Your task: produce FOUR independent, realistic, BEHAVIOUR-PRESERVING changes (call them a, b, c, d)",
     "Your task: produce TWO independent, realistic, BEHAVIOUR-PRESERVING changes (call them e and f)").replace(
@@ -111,8 +119,8 @@ def main():
                 fl = "coordinated" if pid in coordset else "disguised"
             txt = SEED.replace("@FLAVOUR@", FLAVOURS[fl])
         else:
-            txt = {"small": NEUTRAL_SMALL, "medium": NEUTRAL_MEDIUM, "large": NEUTRAL_LARGE, "modern": NEUTRAL_MODERN}[flavour]
-            txt = txt.replace("@DIRS@", {"small": "a, b, c, d", "medium": "g, h, i", "large": "e, f", "modern": "j, k, l"}[flavour])
+            txt = {"small": NEUTRAL_SMALL, "medium": NEUTRAL_MEDIUM, "large": NEUTRAL_LARGE, "modern": NEUTRAL_MODERN, "perf": NEUTRAL_PERF}[flavour]
+            txt = txt.replace("@DIRS@", {"small": "a, b, c, d", "medium": "g, h, i", "large": "e, f", "modern": "j, k, l", "perf": "q, r, s"}[flavour])
         txt = txt.replace("@BASE@", base).replace("@ID@", pid).replace("@PROP@", json.dumps(props[pid], indent=1))
         open(os.path.join(base, pid + ".prompt.txt"), "w").write(txt)
     print("prepared", len(ids), "worktrees and prompts under", base)
